@@ -11,7 +11,7 @@ OUT=$(mktemp -d /tmp/seedeval-out.XXXXXX)
 cp /verif/known_findings.json /verif/baseline_funcs.txt "$OUT/"
 if [ -n "$ALL" ]; then IDS=${IDS:-$(seq -f "C%02g" 1 20)}; else IDS=$ID; fi
 for P in $IDS; do
-  /verif/bin/ipcheck -property $P -root "$WT" -verif "$OUT" > "$OUT/$P.log" 2>&1
+  ${IPCHECK:-/verif/bin/ipcheck} -property $P -root "$WT" -verif "$OUT" > "$OUT/$P.log" 2>&1
   rc=$?
   echo "== $P exit=$rc $(grep -c '^VIOLATION' "$OUT/$P.log") violations"
   grep -E '^\s+\[(violated|undecided|anchor-lost|vacuous)\]' "$OUT/$P.log" | sed 's/^/   /' | head -8
